@@ -33,6 +33,18 @@ RULE = (
     "grids parent*2.0, parent+c, -parent, parent.copy() edited in place and (1D) the parent itself after parent[k]=v are "
     "evaluated through to_array / to_grid / to_vector_yx / project_grid and must be evaluated at THEIR OWN (projected) "
     "coordinates (all variants x makers for Grid1D and Grid2DIrregular, one variant per coordinate kind for Grid2D). "
+    "(e) EXPLICIT KEYWORD FORMS: `is_transformed` (the only keyword any decorator reads) absent / explicitly False / explicitly "
+    "True x {ndarray, Grid2DIrregular, Grid2D uniform+custom, Grid1D uniform+custom} x 2 profiles with non-trivial centre and "
+    "angle x 3 styles of the profile's transform, through transform alone, nested transform-decorated calls, to_array / to_grid / "
+    "to_vector_yx / project_grid . transform (scalar, pair and list programs) and transform . relocate alone and under the three "
+    "makers for 2 minima: the profile transform runs exactly when the grid is not flagged as transformed, on the caller's "
+    "coordinates, and every function / the relocation sees the frame the keyword selects. "
+    "(f) CONFIGURATION HISTORIES inside one case: one profile object and one decorated method (relocate, transform . relocate, "
+    "one maker . transform . relocate and one maker . relocate) is called 3 times (thorough: every non-constant sequence of 3 and "
+    "4 calls) while the radial minimum configured for the profile's class is switched between a small, middle and large value "
+    "(small-large-small, large-small-large, small-middle-small, middle-large-middle) x 3 classes x 3 menus of minima x 3 "
+    "containers x 3 profiles x {same grid object, fresh grid} - the reference reads the configuration current AT EACH CALL; "
+    "points lie inside all, between each pair of, and outside all minima (and on the +-1e-6 shells of each). "
     "non-trivial = the pairing is observable: >= 2 evaluated coordinates "
     "and (for masked inputs) at least one masked pixel; for ring cases at least one moved and one unchanged point"
 )
@@ -55,15 +67,25 @@ ASSUMPTIONS = [
     "input to float on construction passes",
     "derived grids: that structure arithmetic / copy / item assignment return the same structure type with the expected "
     "values is C11's business; a variant for which it does not hold is skipped here",
+    "is_transformed carries its documented meaning ('tracks whether the grid has been transformed'): only an explicit True "
+    "flags the grid as already in the profile frame; absent and False both mean 'not yet transformed'. Non-boolean values and "
+    "keywords that no decorator reads are not exercised",
+    "configuration histories change the in-memory configuration (conf.instance['grids']['radial_minimum']['radial_minimum']"
+    "[<class name>] = value, restored in a finally block); the radial minimum in force is the one configured when the decorated "
+    "function is called. Pushing a whole new configuration directory is not exercised",
 ]
 BOUNDS = {
     "quick": "2D masks with <= 9 cells (3187 masks, all shapes incl. 1xN/Nx1) x 6 geometries x 2 coordinate kinds; "
     "irregular sets 4 menus (one integer-dtype) x lengths 1..6 x 3 profiles; 1D masks of length <= 6 (120) x 6 geometries "
     "x 2 kinds; rings 3 minima x 3 direction sets x 2 orders x 3 containers x 3 profiles; integer rings 3 minima x 2 menus "
     "x 2 orders x 3 containers; derived-after-evaluated histories of depth 2 (evaluate parent, derive, evaluate) in every "
-    "grid case",
+    "grid case; keyword forms 3 x (3 point sets of 6 as ndarray and Grid2DIrregular, 3 masks x 2 coordinate kinds, 3 1D masks "
+    "x 2 kinds) x 2 profiles x 3 transform styles; configuration histories of 3 calls (4 sequences) x 3 classes x 3 menus x 3 "
+    "containers x 3 profiles x 4 stacks x {same, fresh} grid, 80 points each",
     "thorough": "2D masks with <= 12 cells (35943 masks) x 6 geometries x 2 coordinate kinds; irregular as quick; "
-    "1D masks of length <= 9 x 6 geometries x 2 kinds; rings as quick plus a 4th (16-direction) set",
+    "1D masks of length <= 9 x 6 geometries x 2 kinds; rings as quick plus a 4th (16-direction) set; keyword forms on 3 menus "
+    "x every prefix length 1..6 (18 sets), 6 masks x 2 geometries, 5 1D masks x 2 geometries; configuration histories = every "
+    "non-constant sequence of 3 and 4 calls over the 3 minima (102 sequences)",
 }
 
 RMIN = {"VerifC17ProfTiny": 1.0e-8, "VerifC17ProfMid": 0.3, "VerifC17ProfBig": 2.5}
@@ -483,6 +505,18 @@ def cases(tier, seed):
             for order in (0, 1):
                 for cont in ("nd", "irr", "g2d"):
                     yield ["ringint", ci, menu, order, cont, seed]
+    # (e) explicit keyword forms of `is_transformed` (the only keyword the decorators read)
+    for cont in ("nd", "irr", "g2d", "g1d"):
+        for var in range(kw_variants(cont, quick)):
+            for pi in (1, 2):
+                for tstyle in (("nd",) if cont == "nd" else ("nd", "wna", "tg")):
+                    yield ["kw", cont, var, pi, tstyle, seed]
+    # (f) configuration histories inside one case
+    for ci in range(3):
+        for cont in ("nd", "irr", "g2d"):
+            for hist in cfg_histories(quick):
+                for pi in range(nprof):
+                    yield ["cfg", ci, cont, hist, pi, seed]
     # (a) masked uniform grids
     for (h, w, bits) in dom.all_mask_cases(9 if quick else 12):
         for gi in range(6):
@@ -503,6 +537,10 @@ def run_case(case):
         run_ringint(k, v, *case[1:])
     elif kind == "g2d":
         run_g2d(k, v, *case[1:])
+    elif kind == "kw":
+        run_kw(k, v, *case[1:])
+    elif kind == "cfg":
+        run_cfg(k, v, *case[1:])
     else:
         raise ValueError("unknown case kind %r" % (kind,))
     return v.result()
@@ -1177,3 +1215,330 @@ def run_ring(k, v, ci, dset, order, cont, pi, seed):
             check_stack_output(v, aa, dname, itype, prog, desc, out, res[0], res[1], want, extra)
     v.nontrivial = moved >= 1 and unmoved >= 1
     v.outcome = "ring:%s:%s:moved%d:unmoved%d" % (cls, cont, min(moved, 1), min(unmoved, 1))
+
+
+# ---------------------------------------------------------------- (e) explicit keyword forms
+
+# `is_transformed` is the only keyword any decorator reads (transform.py); the makers, project_grid and the relocation pass
+# keywords through. Its documented meaning: "tracks whether the grid has been transformed" - a grid is transformed into the
+# profile frame UNLESS the caller flags it as already transformed.
+KWFORMS = (("absent", {}), ("False", {"is_transformed": False}), ("True", {"is_transformed": True}))
+
+KW_MASKS = [(3, 3, 0b100010001), (2, 4, 0b00100100), (1, 5, 0b01000), (4, 2, 0b10000010), (2, 2, 0b0001), (3, 2, 0)]
+KW_MASKS_1D = [(5, 0b00100), (4, 0b0000), (6, 0b100001), (3, 0b010), (2, 0b00)]
+
+
+def kw_variants(cont, quick):
+    if cont in ("nd", "irr"):
+        return 3 if quick else 18  # menu x (full length | every prefix length)
+    if cont == "g2d":
+        return 3 if quick else 2 * len(KW_MASKS)
+    return 3 if quick else 2 * len(KW_MASKS_1D)
+
+
+def frame_ref(C, centre, angle, kw):
+    """Reference model of the keyword: already-transformed grids pass through, all others are put in the profile frame."""
+    return C.copy() if kw.get("is_transformed") is True else t_ref(C, centre, angle)
+
+
+def check_kw_frame(v, fid, desc, obj, C, F, kw, tol, ptol, ncalls=1, relocated=False):
+    """The transform ran exactly when the keyword does not flag the grid as transformed, on the caller's coordinates; the
+    function(s) received the frame coordinates F (unless a relocation follows) flagged is_transformed=True."""
+    ts = [s for s in obj.seen if s[0] == "T"]
+    fs = f_seen(obj)
+    want_t = 0 if kw.get("is_transformed") is True else 1
+    if len(ts) != want_t or len(fs) != ncalls:
+        v.ok(False, fid, "%s: profile transform called %d times (expected %d), function %d times (expected %d)" % (desc, len(ts), want_t, len(fs), ncalls))
+        return None
+    nviol = len(v.violations)
+    if want_t:
+        v.ok(near(ts[0][1], C, ptol), fid, lambda: "%s: transform received %s expected the caller's coordinates %s" % (desc, ts[0][1].tolist(), C.tolist()))
+    if not relocated:
+        for j, f in enumerate(fs):
+            v.ok(near(f[1], F, tol if want_t else ptol), fid,
+                 lambda: "%s: function %d received %s, expected %s" % (desc, j, f[1].tolist(), F.tolist()))
+    for j, f in enumerate(fs):
+        v.ok(f[3].get("is_transformed") is True, fid, lambda: "%s: function %d kwargs %s lack is_transformed=True" % (desc, j, f[3]))
+    return fs[0][1] if len(v.violations) == nviol else None
+
+
+def run_kwforms(k, v, itype, mkgrid, C, prof, tstyle, plan, rplan, mk_extra, ptol, desc0):
+    """Every form of the keyword through transform alone, nested, under every maker and over the relocation.
+    mkgrid() = a fresh input whose coordinates (as the decorated function must see them untransformed) are C;
+    ptol = tolerance of the pass-through coordinates (0 unless the input is projected first)."""
+    aa = k.aa
+    centre, angle = prof
+    sc = scale_of(C)
+    for form, kw in KWFORMS:
+        sfx = ":is_transformed=" + form
+        F = frame_ref(C, centre, angle, kw)
+        tol = 1e-12 * max(sc, scale_of(F))
+        vtol = 2e-9 * scale_of(F)
+        obj = mk_prof(k, "VerifC17ProfMid", prof, tstyle)
+        # transform alone: the identity program returns what it received
+        desc = "%s transform(id) is_transformed=%s prof=%s tstyle=%s" % (desc0, form, prof, tstyle)
+        call(obj, "T", "id", "np", mkgrid(), **kw)
+        check_kw_frame(v, "transform:%s%s" % (itype, sfx), desc, obj, C, F, kw, tol, ptol)
+        # nested decorated calls: one transform at most, both levels see the frame coordinates
+        desc = "%s transform(nested) is_transformed=%s prof=%s tstyle=%s" % (desc0, form, prof, tstyle)
+        out = call(obj, "T", "nest", "np", mkgrid(), **kw)
+        if check_kw_frame(v, "transform:nested" + sfx, desc, obj, C, F, kw, tol, ptol, ncalls=2) is not None:
+            v.ok(near(arr(out), prog_ref("s", F), max(vtol, 1e3 * ptol)), "transform:nested" + sfx, "%s: nested result differs from f(frame coordinates)" % desc)
+        # under the makers (and project_grid where it passes the grid through)
+        for stack, dname, progs, want in plan:
+            for prog in progs:
+                desc = "%s %s.transform(%s) is_transformed=%s prof=%s tstyle=%s" % (desc0, dname, prog, form, prof, tstyle)
+                out = call(obj, stack, prog, "np", mkgrid(), **kw)
+                if check_kw_frame(v, "transform:%s%s" % (itype, sfx), desc, obj, C, F, kw, tol, ptol) is not None:
+                    check_result(v, aa, dname, itype + sfx, prog, desc, out, prog_ref(prog, F), want, mk_extra(dname),
+                                 vtol if kw.get("is_transformed") is not True else 1e3 * ptol)
+        # over the relocation: it acts in the frame the keyword selects
+        for cls in ("VerifC17ProfMid", "VerifC17ProfBig"):
+            robj = mk_prof(k, cls, prof, tstyle)
+            for stack, dname, prog, want in rplan:
+                desc = "%s %s(%s) %s is_transformed=%s prof=%s tstyle=%s" % (
+                    desc0, ".".join({"A": "to_array", "G": "to_grid", "V": "to_vector_yx", "T": "transform", "R": "relocate"}[c] for c in stack),
+                    prog, cls, form, prof, tstyle)
+                out = call(robj, stack, prog, "np", mkgrid(), **kw)
+                got = check_kw_frame(v, "transform:%s%s" % (itype, sfx), desc, robj, C, F, kw, tol, ptol, relocated=True)
+                if got is None:
+                    continue
+                res = check_reloc(v, desc, got, F, RMIN[cls], sfx)
+                if res is not None and dname is not None:
+                    check_stack_output(v, aa, dname, itype + sfx, prog, desc, out, res[0], res[1], want, mk_extra(dname))
+
+
+def extras_irr(aa, n, C):
+    def mk_extra(dname, full=True):
+        def extra(out):
+            if len(out) != n:
+                return "result has %d entries for %d coordinates" % (len(out), n)
+            if dname == "to_vector_yx" and not (type(out.grid) is aa.Grid2DIrregular and dom.exact(arr(out.grid), C)):
+                return "vector field is not attached to the input coordinates"
+            return None
+
+        return extra
+
+    return mk_extra
+
+
+def extras_g2d(aa, m, ps, origin, C):
+    def mk_extra(dname, full=True):
+        def extra(out):
+            if not same_mask2d(out.mask, m, ps, origin):
+                return "result is not on the input mask: %s ps=%s origin=%s" % (np.array(out.mask).tolist(), out.mask.pixel_scales, out.mask.origin)
+            if not dom.exact(arr(out.native), scatter2d(m, arr(out.slim))):
+                return "native form is not the scatter of the slim entries onto the unmasked pixels: %s" % arr(out.native).tolist()
+            if dname == "to_vector_yx" and not (type(out.grid) is aa.Grid2D and dom.exact(arr(out.grid), C)):
+                return "vector field is not attached to the input grid"
+            return None
+
+        return extra
+
+    return mk_extra
+
+
+def extras_g1d(m, ps, origin):
+    def extra_arr(out):
+        mk = out.mask
+        if not (dom.exact(np.array(mk, dtype=bool), m) and float(mk.pixel_scales[0]) == ps and float(mk.origin[0]) == origin):
+            return "result is not on the input 1D mask: %s" % np.array(mk).tolist()
+        if not dom.exact(arr(out.native), scatter1d(m, arr(out.slim))):
+            return "native form is not the scatter of the slim entries: %s" % arr(out.native).tolist()
+        return None
+
+    def extra_grid(out):
+        mk = out.mask
+        if not (dom.exact(np.array(mk, dtype=bool), m[None, :]) and tuple(float(p) for p in mk.pixel_scales) == (ps, ps)):
+            return "result Grid2D is not on the [1, L] image of the 1D mask: %s ps=%s" % (np.array(mk).tolist(), mk.pixel_scales)
+        if not dom.exact(arr(out.native), scatter2d(m[None, :], arr(out.slim))):
+            return "native form is not the scatter of the slim entries: %s" % arr(out.native).tolist()
+        return None
+
+    return lambda dname, full=True: extra_arr if dname == "to_array" else extra_grid
+
+
+def run_kw(k, v, cont, var, pi, tstyle, seed):
+    aa = k.aa
+    prof = profiles(seed)[pi]
+    A, G, V2 = "to_array", "to_grid", "to_vector_yx"
+    if cont in ("nd", "irr"):
+        menu, n = (var, 6) if var < 3 else ((var - 3) % 3, 1 + (var - 3) // 3)
+        pts = irregular_menu(seed, menu)[:n]
+        desc0 = "kw[%s menu %d n=%d %s]" % (cont, menu, n, pts.tolist())
+        v.nontrivial = n >= 2
+        v.outcome = "kw:%s:n%d" % (cont, min(n, 3))
+        if cont == "nd":
+            # a bare ndarray goes through transform / relocation only (the makers need a structure)
+            run_kwforms(k, v, "ndarray", lambda: pts.copy(), pts.astype(float), prof, tstyle, (), (("TR", None, "id", None),), None, 0.0, desc0)
+            return
+        C = arr(aa.Grid2DIrregular(values=pts.copy()))
+        plan = (("AT", A, ("s", "sL2"), aa.ArrayIrregular), ("GT", G, ("p", "pL3"), aa.Grid2DIrregular), ("VT", V2, ("p", "pL1"), aa.VectorYX2DIrregular),
+                ("PT", "project_grid", ("s",), aa.ArrayIrregular))
+        rplan = (("TR", None, "id", None), ("ATR", A, "s", aa.ArrayIrregular), ("GTR", G, "p", aa.Grid2DIrregular), ("VTR", V2, "p", aa.VectorYX2DIrregular))
+        run_kwforms(k, v, "Grid2DIrregular", lambda: aa.Grid2DIrregular(values=pts.copy()), C, prof, tstyle, plan, rplan, extras_irr(aa, n, C), 0.0, desc0)
+        return
+    if cont == "g2d":
+        h, w, bits = KW_MASKS[var % len(KW_MASKS)]
+        m = dom.mask_from_bits(h, w, bits)
+        ps, origin = geoms2d(seed)[(2 * var + 1 + var // len(KW_MASKS)) % 6]
+        n = int((~m).sum())
+        v.nontrivial = n >= 2
+        v.outcome = "kw:g2d:n%d:%s" % (min(n, 4), "masked" if m.any() else "full")
+        mk = lambda: aa.Mask2D(mask=m.copy(), pixel_scales=ps, origin=origin)
+        C_uni = arr(aa.Grid2D.from_mask(mask=mk()))
+        C_cus = C_uni + dom.rng(seed, "c17-kwjit", var).uniform(-0.4, 0.4, (n, 2)) * np.array(ps)
+        plan = (("AT", A, ("s", "sL2"), aa.Array2D), ("GT", G, ("p", "pL3"), aa.Grid2D), ("VT", V2, ("p", "pL1"), aa.VectorYX2D))
+        rplan = (("TR", None, "id", None), ("ATR", A, "s", aa.Array2D), ("GTR", G, "p", aa.Grid2D), ("VTR", V2, "p", aa.VectorYX2D))
+        for vname, C0, mkgrid in (("uniform", C_uni, lambda: aa.Grid2D.from_mask(mask=mk())),
+                                  ("custom", C_cus, lambda: aa.Grid2D(values=C_cus.copy(), mask=mk()))):
+            C = arr(mkgrid())
+            desc0 = "kw[Grid2D %s %dx%d bits=%d ps=%s origin=%s]" % (vname, h, w, bits, ps, origin)
+            if not dom.exact(C, C0):
+                v.ok(False, "input-grid:Grid2D", "%s does not hold its coordinates" % desc0)
+                continue
+            run_kwforms(k, v, "Grid2D", mkgrid, C, prof, tstyle, plan, rplan, extras_g2d(aa, m, ps, origin, C), 0.0, desc0)
+        return
+    # 1D grids: the makers evaluate along the projected line (0, x_k); the keyword acts on that line
+    L, bits = KW_MASKS_1D[var % len(KW_MASKS_1D)]
+    m = dom.mask_from_bits(1, L, bits)[0]
+    ps, origin = geoms1d(seed)[(2 * var + 1 + var // len(KW_MASKS_1D)) % 6]
+    n = int((~m).sum())
+    v.nontrivial = n >= 2
+    v.outcome = "kw:g1d:n%d:%s" % (min(n, 3), "masked" if m.any() else "full")
+    mk = lambda: aa.Mask1D(mask=m.copy(), pixel_scales=(ps,), origin=(origin,))
+    xs = np.round(dom.rng(seed, "c17-kw1d", var).uniform(-3.0, 3.0, n), 4)
+    plan = (("AT", A, ("s", "sL2"), aa.Array1D), ("GT", G, ("p", "pL3"), aa.Grid2D))
+    for vname, mkgrid in (("uniform", lambda: aa.Grid1D.from_mask(mask=mk())), ("custom", lambda: aa.Grid1D(values=xs.copy(), mask=mk()))):
+        X = arr(mkgrid().slim)
+        desc0 = "kw[Grid1D %s L=%d bits=%d ps=%s origin=%s x=%s]" % (vname, L, bits, ps, origin, X.tolist())
+        if X.shape != (n,):
+            v.ok(False, "input-grid:Grid1D", "%s has slim shape %s" % (desc0, X.shape))
+            continue
+        P0 = np.stack([np.zeros(n), X], -1)
+        obj_plan = [p for p in plan]
+        run_kwforms_1d(k, v, mkgrid, P0, prof, tstyle, obj_plan, extras_g1d(m, ps, origin), 1e-12 * scale_of(X), desc0)
+
+
+def run_kwforms_1d(k, v, mkgrid, P0, prof, tstyle, plan, mk_extra, ptol, desc0):
+    """Grid1D reaches `transform` only under a maker (which projects it first): every keyword form under to_array / to_grid."""
+    aa = k.aa
+    centre, angle = prof
+    for form, kw in KWFORMS:
+        sfx = ":is_transformed=" + form
+        F = frame_ref(P0, centre, angle, kw)
+        tol = 1e-12 * max(scale_of(P0), scale_of(F))
+        obj = mk_prof(k, "VerifC17ProfMid", prof, tstyle)
+        for stack, dname, progs, want in plan:
+            for prog in progs:
+                desc = "%s %s.transform(%s) is_transformed=%s prof=%s tstyle=%s" % (desc0, dname, prog, form, prof, tstyle)
+                out = call(obj, stack, prog, "np", mkgrid(), **kw)
+                if check_kw_frame(v, "transform:Grid1D" + sfx, desc, obj, P0, F, kw, tol, ptol) is not None:
+                    check_result(v, aa, dname, "Grid1D" + sfx, prog, desc, out, prog_ref(prog, F), want, mk_extra(dname), 2e-9 * scale_of(F))
+
+
+# ---------------------------------------------------------------- (f) configuration histories
+
+
+def cfg_histories(quick):
+    """Sequences of indices into the (small, middle, large) minimum menu, one decorated call per entry."""
+    if quick:
+        return ["020", "202", "010", "121"]
+    import itertools
+
+    return ["".join(t) for L in (3, 4) for t in itertools.product("012", repeat=L) if len(set(t)) > 1]
+
+
+def cfg_menus(seed, ci):
+    """(small, middle, large) minima, ratios >= 1.7 so that the +-1e-6 shells of neighbouring minima do not overlap."""
+    b = RMIN[CLS[ci]]
+    r = dom.rng(seed, "c17-cfg", ci)
+    lo = float(np.round(r.uniform(0.4, 0.9), 3))
+    return [(b, 2.0 * b, 5.0 * b), (b / 6.0, b / 2.5, b), (lo, float(np.round(lo * r.uniform(1.8, 2.4), 3)), float(np.round(lo * r.uniform(4.5, 6.0), 3)))]
+
+
+def cfg_points(seed, ci, menu):
+    lo, mid, hi = menu
+    radii = [0.5 * lo, lo * (1 - 1e-6), lo * (1 + 1e-6), math.sqrt(lo * mid), mid * (1 - 1e-6), mid * (1 + 1e-6), math.sqrt(mid * hi),
+             hi * (1 - 1e-6), hi * (1 + 1e-6), 2.0 * hi]
+    pts = np.array([(rr * sy, rr * cx) for (sy, cx) in ring_dirs(seed, 2)[:6] + ring_dirs(seed, 0)[:2] for rr in radii])
+    return pts[dom.rng(seed, "c17-cfgperm", ci).permutation(len(pts))]
+
+
+def radial_section():
+    from autoconf import conf
+
+    return conf.instance["grids"]["radial_minimum"]["radial_minimum"]
+
+
+def run_cfg(k, v, ci, cont, hist, pi, seed):
+    """One profile object, one decorated method, several calls; between the calls the configured radial minimum of the
+    profile's class is changed. The reference reads the configuration that is current AT EACH CALL."""
+    aa = k.aa
+    cls = CLS[ci]
+    prof = profiles(seed)[pi]
+    centre, angle = prof
+    sfx = ":config-history"
+    want = {("irr", "A"): aa.ArrayIrregular, ("irr", "G"): aa.Grid2DIrregular, ("irr", "V"): aa.VectorYX2DIrregular,
+            ("g2d", "A"): aa.Array2D, ("g2d", "G"): aa.Grid2D, ("g2d", "V"): aa.VectorYX2D}
+    itype = {"nd": "ndarray", "irr": "Grid2DIrregular", "g2d": "Grid2D"}[cont]
+    saved = radial_section()[cls]
+    differed = moved = unmoved = 0
+    try:
+        for mi, menu in enumerate(cfg_menus(seed, ci)):
+            Pf = cfg_points(seed, ci, menu)  # designed in the profile frame
+            n = len(Pf)
+            m = ring_mask(n)
+
+            def wrap(Cw):
+                if cont == "nd":
+                    return Cw.copy()
+                if cont == "irr":
+                    return aa.Grid2DIrregular(values=Cw.copy())
+                return aa.Grid2D(values=Cw.copy(), mask=aa.Mask2D(mask=m.copy(), pixel_scales=(0.7, 0.7), origin=(0.1, -0.2)))
+
+            extra = None
+            if cont == "g2d":
+                def extra(o):
+                    return None if same_mask2d(o.mask, m, (0.7, 0.7), (0.1, -0.2)) else "result is not on the input mask"
+            S = t_inv(Pf, centre, angle)
+            stacks = [("R", None, "id", Pf, False), ("TR", None, "id", S, True)]
+            if cont != "nd":
+                a = ("ATR", "to_array", "s"), ("GTR", "to_grid", "p"), ("VTR", "to_vector_yx", "p")
+                stacks.append(a[(mi + pi) % 3] + (S, True))
+                stacks.append((("AR", "to_array", "s"), ("GR", "to_grid", "p"), ("VR", "to_vector_yx", "p"))[(mi + pi + 1) % 3] + (Pf, False))
+            for stack, dname, prog, Cin, transformed in stacks:
+                for same_grid in (True, False):
+                    obj = mk_prof(k, cls, prof, "wna" if cont != "nd" else "nd")
+                    grid = wrap(Cin)
+                    C = arr(grid)
+                    Fr = t_ref(C, centre, angle) if transformed else C
+                    prev = None
+                    for step, h in enumerate(hist):
+                        rmin = float(menu[int(h)])
+                        radial_section()[cls] = rmin
+                        if float(radial_section()[cls]) != rmin:
+                            raise RuntimeError("harness: could not configure the radial minimum of %s" % cls)
+                        if not same_grid and step:
+                            grid = wrap(Cin)
+                        desc = "cfg[%s %s prof=%s %s, %s grid] call %d of history %s with the configured minimum now %r" % (
+                            cls, cont, prof, ".".join({"A": "to_array", "G": "to_grid", "V": "to_vector_yx", "T": "transform", "R": "relocate"}[c] for c in stack),
+                            "same" if same_grid else "fresh", step + 1, [menu[int(x)] for x in hist[: step + 1]], rmin)
+                        out = call(obj, stack, prog, "np", grid)
+                        fs = f_seen(obj)
+                        res = check_reloc(v, desc, fs[0][1] if len(fs) == 1 else None, Fr, rmin, sfx)
+                        if res is None:
+                            continue
+                        if dname is not None:
+                            check_stack_output(v, aa, dname, itype + sfx, prog, desc, out, res[0], res[1], want[(cont, stack[0])], extra)
+                        if same_grid:
+                            v.ok(dom.exact(arr(grid), C), "relocate_to_radial_minimum:input-mutated" + sfx, "%s: caller's grid was modified" % desc)
+                        _, _, _, inside, outside = reloc_classes(Fr, rmin)
+                        moved, unmoved = max(moved, int(inside.sum())), max(unmoved, int(outside.sum()))
+                        if prev is not None and (prev != inside).any():
+                            differed += 1
+                        prev = inside
+    finally:
+        radial_section()[cls] = saved
+    v.nontrivial = differed >= 1 and moved >= 1 and unmoved >= 1
+    v.outcome = "cfg:%s:%s:%s" % (cls, cont, "changed" if differed else "constant")
